@@ -198,6 +198,11 @@ func cmdIter(args []string) {
 				enc.Encode(ev)
 				st.Events++
 				st.ByEvent["Word"]++
+				if ex, ok := ev["exited"].(bool); ok && !ex && !poisoned {
+					// a producer goroutine that did not exit stays around: later
+					// measurements (goroutine counts, 5 s waits per word) are pointless
+					poisoned = true
+				}
 				if poisoned {
 					break
 				}
